@@ -12,6 +12,7 @@ import (
 	"time"
 
 	"github.com/ThreeDotsLabs/watermill/message"
+	"github.com/ThreeDotsLabs/watermill/verifhook"
 	"github.com/pkg/errors"
 )
 
@@ -162,17 +163,33 @@ func (kr *mapExpiringKeyRepository) IsDuplicate(
 	ctx context.Context,
 	key string,
 ) (bool, error) {
+	if verifhook.Enabled {
+		verifhook.At("dedup.isduplicate.enter", fmt.Sprintf("%p", kr), key)
+	}
 	kr.mu.Lock()
+	if verifhook.Enabled {
+		verifhook.At("dedup.isduplicate.locked", fmt.Sprintf("%p", kr), key)
+	}
 	_, alreadySeen := kr.tags[key]
+	if verifhook.Enabled {
+		verifhook.At("dedup.isduplicate.lookup", fmt.Sprintf("%p", kr), key, fmt.Sprint(alreadySeen))
+	}
 	if alreadySeen {
 		// NOTE: could also check if key expires.After(t)
 		// and remove it for exact expiration
 		// instead of fuzzy until-next clean up expiration
 		// but this should not be needed for most use cases.
+		if verifhook.Enabled {
+			verifhook.At("dedup.isduplicate.unlock", fmt.Sprintf("%p", kr), key, "dup")
+		}
 		kr.mu.Unlock()
 		return true, nil
 	}
 	kr.tags[key] = time.Now().Add(kr.window)
+	if verifhook.Enabled {
+		verifhook.At("dedup.isduplicate.inserted", fmt.Sprintf("%p", kr), key, kr.tags[key].String())
+		verifhook.At("dedup.isduplicate.unlock", fmt.Sprintf("%p", kr), key, "new")
+	}
 	kr.mu.Unlock()
 	return false, nil
 }
@@ -189,13 +206,25 @@ func (kr *mapExpiringKeyRepository) cleanOutLoop(ctx context.Context, ticker *ti
 }
 
 func (kr *mapExpiringKeyRepository) cleanOut(tagsBefore time.Time) {
+	if verifhook.Enabled {
+		verifhook.At("dedup.cleanout.ticked", fmt.Sprintf("%p", kr), tagsBefore.String())
+	}
 	kr.mu.Lock()
 	defer kr.mu.Unlock()
+	if verifhook.Enabled {
+		verifhook.At("dedup.cleanout.locked", fmt.Sprintf("%p", kr), tagsBefore.String())
+	}
 
 	for hash, expires := range kr.tags {
 		if expires.Before(tagsBefore) {
 			delete(kr.tags, hash)
+			if verifhook.Enabled {
+				verifhook.At("dedup.cleanout.removed", fmt.Sprintf("%p", kr), hash)
+			}
 		}
+	}
+	if verifhook.Enabled {
+		verifhook.At("dedup.cleanout.unlock", fmt.Sprintf("%p", kr))
 	}
 }
 
